@@ -23,14 +23,14 @@ Require Epub TocStr Tok Exp Xhtml.
 Theorem C14_container_balanced : Tok.run Xhtml.X.container_xml (Tok.Txt, []) = (Tok.Txt, []).
 Proof. exact Epub.container_xml_balanced. Qed.
 Theorem C14_nav_balanced : forall title s, Exp.fmt s = Exp.FX -> Forall TocStr.entry_ok (lox_toc s) -> Tok.textual (Xhtml.X.param "document-title" s) ->
-  Tok.no_c 62 (Text.lang s) = true -> Tok.textual title -> TocStr.balanced_chunk (fst (Xhtml.X.nav_xhtml title s)).
+  Tok.textual title -> TocStr.balanced_chunk (fst (Xhtml.X.nav_xhtml title s)).
 Proof. exact Epub.nav_xhtml_balanced. Qed.
 Theorem C14_ncx_balanced : forall title s, Exp.fmt s = Exp.FX -> Forall TocStr.entry_ok (lox_toc s) -> Tok.textual (Xhtml.X.param "document-title" s) ->
   Tok.no_c 62 (Xhtml.X.param "epub-uuid" s) = true -> Tok.textual title -> TocStr.balanced_chunk (fst (Xhtml.X.toc_ncx title s)).
 Proof. exact Epub.toc_ncx_balanced. Qed.
-Theorem C14_package_balanced : forall title s, Tok.textual title -> Tok.textual (Xhtml.X.param "epub-uuid" s) -> Tok.textual (Text.lang s) ->
+Theorem C14_package_balanced : forall title s, Tok.textual title -> Tok.textual (Xhtml.X.param "epub-uuid" s) ->
   Tok.textual (Xhtml.X.param "document-author" s) -> Forall (Epub.ref_ok s) (Xhtml.X.chap_entries s) ->
-  Forall (fun im => Tok.no_c 62 (Xhtml.X.base_name im []) = true) (images s) -> TocStr.balanced_chunk (fst (Xhtml.X.content_opf title s)).
+  TocStr.balanced_chunk (fst (Xhtml.X.content_opf title s)).
 Proof. exact Epub.content_opf_balanced. Qed.
 Print Assumptions C14_package_balanced.
 
